@@ -284,6 +284,74 @@ func run(r *Rng, tier string, n int) {
 			}
 		}
 	}
+	// (2c) character-strings whose TEXT is longer than 255 characters while the octets they denote are at most
+	// 255 (escapes shrink on the wire), in every string-carrying type; and OPT records whose owner is not the
+	// root (sloppy peers send them; Unpack and Pack accept them): Len never underestimates, Pack has room
+	{
+		mkText := func(octets, nesc int, ddd bool) string {
+			var sb strings.Builder
+			for i := 0; i < octets; i++ {
+				switch {
+				case i < nesc && ddd:
+					sb.WriteString("\\00" + string(rune('1'+i%9)))
+				case i < nesc:
+					sb.WriteString("\\;")
+				default:
+					sb.WriteByte(byte('a' + i%26))
+				}
+			}
+			return sb.String()
+		}
+		for _, octets := range []int{254, 255} {
+			for _, nesc := range []int{1, 2, 3, 64, 200, 255} {
+				if nesc > octets {
+					nesc = octets
+				}
+				for _, ddd := range []bool{false, true} {
+					txt := mkText(octets, nesc, ddd)
+					recs := []dns.RR{
+						&dns.TXT{Hdr: dns.RR_Header{Name: "t.example.", Rrtype: dns.TypeTXT, Class: 1}, Txt: []string{txt, "x"}},
+						&dns.SPF{Hdr: dns.RR_Header{Name: "t.example.", Rrtype: dns.TypeSPF, Class: 1}, Txt: []string{txt}},
+						&dns.HINFO{Hdr: dns.RR_Header{Name: "t.example.", Rrtype: dns.TypeHINFO, Class: 1}, Cpu: txt, Os: "os"},
+						&dns.NAPTR{Hdr: dns.RR_Header{Name: "t.example.", Rrtype: dns.TypeNAPTR, Class: 1}, Order: 1, Preference: 1, Flags: "u", Service: "s", Regexp: txt, Replacement: "."},
+						&dns.X25{Hdr: dns.RR_Header{Name: "t.example.", Rrtype: dns.TypeX25, Class: 1}, PSDNAddress: txt},
+					}
+					for _, rr := range recs {
+						for _, compress := range []bool{false, true} {
+							m := new(dns.Msg)
+							m.Compress = compress
+							m.SetQuestion("t.example.", rr.Header().Rrtype)
+							m.Answer = []dns.RR{rr, dns.Copy(rr)}
+							// these are valid messages (every string is at most 255 octets): Pack succeeds
+							if _, err := m.Pack(); err != nil {
+								t, _ := MsgText(m)
+								Viol("C08/pack-fails-on-valid-message/long-escaped-text", "Pack fails on a message whose strings denote at most 255 octets: "+err.Error(), map[string]string{"msg": t})
+							}
+							checkLen(m, false, false, "long-escaped-text")
+							st["long_escaped_text_messages"]++
+						}
+					}
+				}
+			}
+		}
+		for _, owner := range []string{"edns.resolver.example.", "x.", "z.example.org.", strings.Repeat("a.", 100)} {
+			for _, compress := range []bool{false, true} {
+				o := &dns.OPT{Hdr: dns.RR_Header{Name: owner, Rrtype: dns.TypeOPT, Class: 1232}}
+				o.Option = []dns.EDNS0{&dns.EDNS0_NSID{Code: dns.EDNS0NSID, Nsid: "aabb"}}
+				m := new(dns.Msg)
+				m.Compress = compress
+				m.SetQuestion("z.example.org.", dns.TypeA)
+				m.Answer = []dns.RR{&dns.A{Hdr: dns.RR_Header{Name: "z.example.org.", Rrtype: dns.TypeA, Class: 1}, A: []byte{192, 0, 2, 1}}}
+				m.Extra = []dns.RR{o}
+				if _, err := m.Pack(); err != nil {
+					t, _ := MsgText(m)
+					Viol("C08/pack-fails-on-valid-message/opt-owner-not-root", "Pack fails: "+err.Error(), map[string]string{"msg": t})
+				}
+				checkLen(m, false, false, "opt-owner-not-root")
+				st["opt_owner_messages"]++
+			}
+		}
+	}
 	// (3) messages crossing the 16384-octet pointer limit
 	big := 6
 	if tier == "thorough" {
